@@ -675,6 +675,27 @@ def fixed_scenarios(prop):
         out.append(gen_edit_scenario(_r.Random(1), "fixed-edit-every-line-a", slots=[0, 1, 2, 3]))
         out.append(gen_edit_scenario(_r.Random(2), "fixed-edit-every-line-b", slots=[4, 5, 6, 7]))
         out += fixed_indent_scenarios()
+        # same-named callables: A, B, A with an equal argument, also across a fresh process
+        ev = []
+        for k in (1, 2, 3, 4, 5):
+            ev += [["define", k], ["wrap", k]]
+        seq = [1, 3, 1, 4, 3, 5, 2, 1, 5, 4, 2]
+        ev += [_c(k) for k in seq] + [["newprocess"]]
+        for k in (1, 2, 3, 4, 5):
+            ev += [["define", k], ["wrap", k]]
+        ev += [_c(k) for k in (3, 1, 4, 5, 2, 3)]
+        out.append({"id": "fixed-same-named-callables", "type": "c12", "multi_id": True,
+                    "params": [["x", "pk", None]], "ignore": [], "compress": False, "mode": "same",
+                    "versions": {str(k + 1): {"tag": m, "path": "verifmod.py", "pad": 0, "kind": "names", "member": m,
+                                              "text": k + 1} for k, m in enumerate(NAME_MEMBERS)}, "events": ev})
+        # the live wrapper is pickled / copied / hashed, then the function is hot-reloaded
+        for n, how in enumerate(["dumps", "hash", "copy", "deepcopy"]):
+            V = {"1": {"tag": "v1", "path": "verifmod.py", "pad": 0, "kind": "def", "text": 1},
+                 "2": {"tag": "v2", "path": "verifmod.py", "pad": 0, "kind": "def", "text": 2}}
+            out.append({"id": "fixed-pickled-then-hot-reload-%s" % how, "type": "c12", "picklable": True,
+                        "params": [["x", "pk", None]], "ignore": [], "compress": False, "versions": V, "mode": "same",
+                        "events": [["define", 1], ["wrap", 1], _c(1), _c(1), ["pickled", 1, how], _c(1),
+                                   ["hotreload", 1, 2], _c(2), _c(2), ["pickled", 2, how], _c(2, 1)]})
         # (c) source-less functions (exec'd text): an edit that changes only a literal, in process and across
         #     fresh processes
         V = {str(k): {"tag": "v%d" % k, "path": "nosrc.py", "pad": 0, "kind": "sourceless", "text": k} for k in (1, 2)}
@@ -694,6 +715,50 @@ def fixed_scenarios(prop):
                         "params": [["x", "pk", None]], "ignore": [], "compress": False, "versions": V,
                         "mode": "same" if same else "own", "events": ev})
     return out
+
+
+NAME_MEMBERS = ["area", "Square().area", "Disc.area", "Outer.Inner.area", "Outer.area"]
+
+
+def gen_names_scenario(rng, sid, members=None):
+    """same-named callables of one module (module-level function, bound method, staticmethods of two classes and of a
+    nested class) cached and called alternately with EQUAL arguments, in one process and across processes.  Their
+    qualnames differ, so each has its own function identifier and directory; in the single-id model they are run
+    with one text and with key classes made disjoint per callable (which is what separate directories amount to)."""
+    members = members or rng.sample(NAME_MEMBERS, rng.randint(2, 4))
+    V = {str(k + 1): {"tag": m, "path": "verifmod.py", "pad": 0, "kind": "names", "member": m, "text": k + 1}
+         for k, m in enumerate(members)}
+    sc = {"id": sid, "type": "c12", "multi_id": True, "params": [["x", "pk", None]], "ignore": [],
+          "compress": False, "versions": V, "mode": "same"}
+
+    def intro():
+        ev = []
+        for k in range(1, len(members) + 1):
+            ev += [["define", k], ["wrap", k]]
+        return ev
+    events = intro()
+    for _ in range(rng.randint(4, 12)):
+        k = rng.randint(1, len(members))
+        a = rng.choice([0, 0, 1])
+        if rng.random() < 0.3:
+            events.append(["check", k, {"pos": [I(a)], "kw": []}, True])
+        if rng.random() < 0.2:
+            nref = sum(1 for e in events if e[0] == "shelve")
+            events += [["shelve", k, {"pos": [I(a)], "kw": []}, True], ["get", nref]]
+        else:
+            events.append(_c(k, a))
+        r = rng.random()
+        if r < 0.12:
+            events += [["newprocess"]] + intro()
+        elif r < 0.16:
+            events.append(["clearmem"])
+    sc["events"] = events
+    return sc
+
+
+def mtext(sc, v):
+    """text identity of a version as the MODEL sees it (one text for the same-named-callables stream)"""
+    return 0 if sc.get("multi_id") else v.get("text", 0)
 
 
 def gen_c12_scenario(rng, sid):
@@ -834,7 +899,7 @@ def gen_edit_scenario(rng, sid, slots=None, specs=None):
             specs[2 + sl] = {"slots": v}
     versions = {}
     sc = {"id": sid, "type": "c12", "params": [["x", "pk", None]], "ignore": [], "compress": False,
-          "versions": versions, "mode": "same"}
+          "versions": versions, "mode": "same", "picklable": True}
 
     def new_object(text):
         k = max([int(x) for x in versions] + [0]) + 1
@@ -862,6 +927,9 @@ def gen_edit_scenario(rng, sid, slots=None, specs=None):
         if how == "process":
             events.append(["newprocess"])
         if how == "hotreload":
+            if rng.random() < 0.6:
+                # the live wrapper is pickled / copied / hashed first (a Parallel dispatch): it must stay unchanged
+                events.append(["pickled", cur, rng.choice(["dumps", "dumps", "hash", "copy", "deepcopy"])])
             if rng.random() < 0.5:
                 events.append(["recode", cur])      # equal recompilation first, then the edit
             had.add(versions[str(cur)]["text"])
@@ -972,7 +1040,7 @@ def monitor(sc, classify=False):
             j = ev[1]
             others = [k for k in live if k != j]
             new_stale = [k for k in others if vpath(k, V[str(k)]) == vpath(j, V[str(j)])
-                         and V[str(k)].get("text", 0) != V[str(j)].get("text", 0)]
+                         and mtext(sc, V[str(k)]) != mtext(sc, V[str(j)])]
             stale = new_stale + [k for k in stale if k != j]
             live = [j] + others
             wraps = [k for k in wraps if k != j]
@@ -989,10 +1057,10 @@ def monitor(sc, classify=False):
             if k in wraps:
                 if k in stale:
                     return False, i, "stale"
-                if k in called and cur != V[str(k)].get("text", 0) and not unnamed(V[str(k)]):
+                if k in called and cur != mtext(sc, V[str(k)]) and not unnamed(V[str(k)]):
                     return False, i, "other-version"
                 called = [k] + called
-                cur = V[str(k)].get("text", 0)
+                cur = mtext(sc, V[str(k)])
         elif t == "clearmem":
             called, cur = [], None
         elif t == "newprocess":
@@ -1181,7 +1249,7 @@ def model_terms(sc, res):
     nameds = ["true"] * (kmax + 1)
     path_ids = {}
     for k, v in V.items():
-        codes[int(k)] = v.get("text", 0) + 1 if sc["type"] in ("c12", "partial") else 1
+        codes[int(k)] = mtext(sc, v) + 1 if sc["type"] in ("c12", "partial") else 1
         # a partial has no source file: its text is repr(partial) -- modelled as a file of its own
         paths[int(k)] = path_ids.setdefault(vpath(k, v), len(path_ids))
         nameds[int(k)] = "false" if unnamed(v) else "true"
@@ -1194,7 +1262,7 @@ def model_terms(sc, res):
             return None
         if t == "hotreload":
             hist.append("Define %d; Wrap %d" % (ev[2], ev[2]))
-        elif t == "rewrap":
+        elif t in ("rewrap", "pickled"):
             hist.append("Get 999999")     # the copy has the state of the original: no model event (OSkip)
         elif t == "recode":
             hist.append("Wrap %d" % ev[1])    # an equal code object: the wrapper drops its cached source text
@@ -1204,6 +1272,8 @@ def model_terms(sc, res):
             hist.append("Wrap %d" % ev[1])
         elif t in ("call", "shelve", "check"):
             aid = r.get("args_id")
+            if sc.get("multi_id") and aid is not None:
+                aid = "%s/%s" % (ev[1], aid)       # another function identifier = another directory
             key = "None" if aid is None else "(Some %d)" % keyc.setdefault(aid, len(keyc))
             if r.get("bind") is None:
                 b = "None"
@@ -1243,7 +1313,7 @@ def impl_view(sc, res, tables):
     val = {}
     for ev, r in zip(sc["events"], res["events"]):
         if ev[0] in ("call", "shelve", "check") and r.get("bind") is not None:
-            src = V[str(ev[1])].get("text", 0) + 1 if sc["type"] in ("c12", "partial") else 1
+            src = mtext(sc, V[str(ev[1])]) + 1 if sc["type"] in ("c12", "partial") else 1
             val[r["expect"]] = (src, rbindc[r["expect"]])
     for ev, r in zip(sc["events"], res["events"]):
         t = ev[0]
@@ -1435,7 +1505,8 @@ def gen_for(ctx, prop, n=None):
         n = n or (210 if quick else 2500)
         return ([W_F10, W_SAME] + fixed_scenarios(prop) + [gen_c12_scenario(rng, i) for i in range(n)]
                 + [gen_edit_scenario(rng, "edit-%d" % i) for i in range(35 if quick else 600)]
-                + [gen_indent_scenario(rng, "indent-%d" % i) for i in range(30 if quick else 400)])
+                + [gen_indent_scenario(rng, "indent-%d" % i) for i in range(30 if quick else 400)]
+                + [gen_names_scenario(rng, "names-%d" % i) for i in range(30 if quick else 400)])
     sigs3 = enum_signatures(3)
     sigs = enum_signatures(4 if quick else 5)
     n = n or (230 if quick else 3000)
@@ -1448,6 +1519,9 @@ def gen_for(ctx, prop, n=None):
         scs += fixed_indent_scenarios()
         scs += [gen_indent_scenario(rng, "indent-%d" % i) for i in range(12 if quick else 100)]
         scs += [gen_edit_scenario(rng, "edit-%d" % i) for i in range(8 if quick else 100)]
+        # same-named callables of one module (other qualname = other function identifier)
+        scs += [sc_ for sc_ in fixed_scenarios("C12") if sc_["id"] == "fixed-same-named-callables"]
+        scs += [gen_names_scenario(rng, "names-%d" % i) for i in range(10 if quick else 100)]
     if numpy_available():
         scs += fixed_numpy_scenarios()
         scs += [gen_numpy_scenario(rng, "np-%d" % i) for i in range(30 if quick else 400)]
